@@ -16,7 +16,7 @@ Line protocol of the C03 driver (one line in, one line out).  Values are printed
   gauss <form> <x> <mu> <M>            -> `value <quad> <grad> <demanded>` | `not-vector <quad> <scalar> <demanded>` | `raise`
         form ∈ cov|prec|sqrtcov|sqrtprec; M: 1x1 = scalar, 1xn = 1-D array, nxn = matrix
   gmrf <1|2> <order> <bc> <n> <prec> <x> <mu>   -> `value <quad> <grad> <demanded>` | `raise`
-  cmrf <1|2> <bc> <n> <scale> <x> <loc>         -> `value <logd> <grad as coded> <demanded>`
+  cmrf <1|2> <bc> <n> <scale> <x> <loc>         -> `value <logd> <grad> <demanded>`
   lik <dev> <J> <P> <G|_>              -> `value <grad>`  (dev = data - F(x); J m×p; P m×m; G p×n Jacobian of par2fun)
   poststatus <hasGrad> <dom> <rangeId> <precOk> <fd> <none|twolik|family> <dimgt1>  -> status of (posterior) gradient
   sum <v1> <v2> ...                    -> `value <v1+v2+...>`
@@ -181,8 +181,11 @@ def stepCmrf (pd : Nat) (bc : C20.BC) (n : Nat) (s : Rat) (x loc : List Rat) : S
   let D := fn2 (toQ Dm)
   let m := Dm.rows
   let l : Nat → Rat := fun j => bcast loc j
-  let g := (List.range dim).map fun i => cmrfGradCode m dim D s (fn x) i
-  let t := (List.range dim).map fun i => cmrfGradTrue m dim D s (fn x) l i
+  let g := (List.range dim).map fun i => cmrfGrad m dim D s (fn x) l i
+  -- demanded: chain rule with the symbolic derivative of the component formula `cmrfComp`
+  let t := (List.range dim).map fun i => sumTo m fun k =>
+      let u := matVec dim D (fun j => fn x j - l j) k
+      (evalQ (envQ [u, s]) (RExpr.deriv 0 (cmrfComp (var 0) (var 1)))).getD 0 * D k i
   -- logpdf: -len(Dx)*log(pi) + sum(log(scale) - log(Dx**2+scale**2)),  Dx = D @ (x - location)
   let logd := (List.range m).foldl (fun (acc : Float) k =>
       let u := matVec dim D (fun j => fn x j - l j) k
